@@ -8,7 +8,9 @@ EXPLANATION = (
     "own name between self.get_val() and the other operand's value (x.get_val() for an Fxp) - never raw codes, never through a helper that re-aligns codes; "
     "R2 conversions: astype(float)/get_val return code / 2^n_frac, astype(int) returns code // 2^n_frac (floor) and the code itself only on paths where the guards fix "
     "n_frac == 0; int()/float()/bool() delegate; raw() returns the stored code; uraw() normalises to ite(code < 0, 2^n_word + code, code); the conversion factor is "
-    "2^n_frac on all branches (C01.R3). Residual: float equality of values beyond 2^53 (outside the quantifier).")
+    "2^n_frac on all branches (C01.R3). Residual: float equality of values beyond 2^53 (outside the quantifier)."
+    ' Added after the third round of seeded changes: the value type get_val() casts to is never a narrow NumPy dtype (C01.R6).'
+)
 ASSUMPTIONS = ["Python // floors; / on int64 and a power of two is exact below 2^53"]
 TRUSTED = ["CPython ast", "fxlint term normaliser"]
 
